@@ -134,6 +134,16 @@ def nontrivial(desc: dict, res: dict) -> bool:
     return bool(fired) or (len(sch.get("threads", [])) >= 2 and sch.get("switches", 0) >= 10)
 
 
+def _last_func(tb: str, needle: str) -> str:
+    import re
+
+    fn = "?"
+    for m in re.finditer(r'File "([^"]+)", line \d+, in (\w+)', tb):
+        if needle in m.group(1):
+            fn = m.group(2)
+    return fn
+
+
 @register
 class C11Profile(Profile):
     name = "c11"
@@ -166,7 +176,11 @@ class C11Profile(Profile):
                         "rule": "C11/H1",
                         "message": "built-in OutputHandler lifecycle assertion failed on the engine's own stream: "
                         + tb.strip().splitlines()[-1][:200],
-                        "signature": {"what": "output_handler_assert"},
+                        "signature": {
+                            "what": "output_handler_assert",
+                            "func": _last_func(tb, "handlers/output.py"),
+                            "after_ctrl_c_handled_by": (ctx.ctrl_c_fired or {}).get("handler"),
+                        },
                     }
                 )
         return vs
